@@ -18,6 +18,7 @@ of the model.  Unreachable from `run_a_star`, whose counter starts at 0 and grow
 expansion (2^64 expansions), and outside the builder's reach; the limits `u64::MAX`, `usize::MAX` and 0
 themselves are generated (extreme-value stream of harness/src/searchprops.rs).
 -/
+import Compass.Gen.Decisions
 import Compass.Proofs.Num
 import Compass.Model.Instance
 import Compass.Proofs.SearchLimits
@@ -948,6 +949,36 @@ example : (TermM.iters 3).test 0 3 = .error (.terminated [.iterations]) := by de
 example : (TermM.combined [.iters 3, .size 1]).test 2 3 = .error (.terminated [.iterations, .size]) := by decide
 example : (TermM.runtime 1000 2 0 600).test 0 2 = .error (.terminated [.runtime]) := by decide
 example : (TermM.runtime 1000 2 0 600).test 0 3 = .ok () := by decide
+
+end C10
+end Compass
+
+namespace Compass
+namespace C10
+open Src
+
+/-! ### Source decision ties
+
+The relational operators at the named comparison sites of the Rust source are re-extracted on every run
+by `tools/gen_model.py` into `Compass/Gen/Decisions.lean` (`Src.<site> : Src.Rel`).  Each theorem below
+says that the hand-written model decides at that site by exactly the operator the source has there
+(`Rel.nat` / `Rel.int` / `Rel.num` interpret the extracted operator; an unrecognised line is `none`).  A
+source change that turns `<` into `<=`, `>` into `>=`, … at a site changes the generated constant and this
+proof obligation stops checking, whether or not a generated case lands on the tie. -/
+
+theorem src_term_solution_size (limit sz it : Nat) :
+    (TermM.size limit).fires sz it = term_solution_size.nat sz limit := by
+  simp [TermM.fires, term_solution_size, Rel.nat]
+
+theorem src_term_iterations (limit sz it : Nat) :
+    (TermM.iters limit).fires sz it = term_iterations.nat (it + 1) limit := by
+  simp [TermM.fires, term_iterations, Rel.nat]
+
+theorem src_term_runtime (limitNs freq baseNs perNs sz it : Nat) (hf : freq ≠ 0) :
+    (TermM.runtime limitNs freq baseNs perNs).fires sz it =
+      (term_frequency.nat (it % freq) 0).bind fun due =>
+        if due then term_runtime.nat (baseNs + perNs * it) limitNs else some false := by
+  simp [TermM.fires, term_frequency, term_runtime, Rel.nat, hf]
 
 end C10
 end Compass
